@@ -44,6 +44,8 @@ CLAIMS = {
          "Models Adder/StripedModel.v, Adder/SimpleModel.v. Axiom-free."),
  "C10": ("5.10", "Coq theorems for any number of concurrent reporters: bucket ids are never shared, the current bucket is never also archived, carried buckets are in no reservoir (so trimAndSum counts nothing twice) and the counters of all buckets together equal the number of executed report-adds modulo 2^64 (nothing invented, nothing lost, CAS losers and back-in-time events included); sequentially the window returns exactly the reference window's counts for every tick stream. The upper bound for counts returned DURING concurrency is not stated as a theorem (monitor + correspondence only). " + TIE,
          "Model Breaker/BreakerModel.v (reservoir = weakly-consistent-iterator specification object, adders = counters). Axiom-free."),
+ "C13": ("5.13", "Coq theorems for all programs and interleavings of iterators with Offer/Poll/Remove: a traversal returns only offered values (the value captured for the cursor node), node addresses strictly increase (each element at most once, in queue order), a Next skips only nodes that are dead at that instant, every element still queued when a Next returns is still ahead of the cursor or was returned by this traversal (so an element that stays for the whole traversal is returned), Remove kills exactly the node last returned by Next, every node is taken out by at most one step (the Poll that returns it or the Remove of an iterator that returned it last) and stays dead; iterator operations never fail, never block and terminate within the solo bound of C07. " + TIE,
+         "Model Queue/JdkModel.v. Iterator objects are goroutine-owned (checked by the C14 discipline, not here). Axiom-free."),
  "C14": ("5.14", "PARTIAL. What is machine-checked: the table of every struct-field access and every sync-object method call is regenerated from the current Go sources on every run (tools/accesstab, go/types) and Coq decides by computation that each access obeys the protection class declared for its location (atomic / immutable-after-construction / guarded-by-mutex / goroutine-owned; exact list of mutating sync call sites), with a proved soundness lemma for the decision procedure. Data-race freedom itself (discipline => happens-before ordering under the Go memory model) is an informal argument, not a theorem. A -race build of stress workloads over the whole concurrent-safe API runs on every check as the search for a concrete race.",
          "Model Race/Discipline.v + generated build/gen/AccessTable.v. Lock-held regions approximated by enclosing functions; user-supplied callbacks outside the table. Axiom-free."),
  "C15": ("5.15", "Coq theorems: one goroutine using the lock-free queue (Offer incl. nil, Poll, Peek, IsEmpty, Size, Iterator/HasNext/Next/Remove) gets exactly the results of a plain list object; after ANY concurrent execution Size, further FIFO use and a full drain agree with the elements offered and not yet removed; the mutex queue is linearizable over its API. " + TIE,
